@@ -1,16 +1,466 @@
-//! Replication steps (honest sync, tampered proofs, raw requests). Filled in with W2.
-use crate::tamper::{Mutation, RawProofSpec};
-use crate::world::{Req, World};
+//! Replication steps: honest sync (C03), tampered proofs (C04), raw peer input (C09).
 
-pub fn do_sync(_w: &mut World, _n: usize, _req: &Req) {}
-pub fn do_tamper(_w: &mut World, _n: usize, _req: &Req, _m: &Mutation) {}
-pub fn do_raw_request(
-    _w: &mut World,
-    _n: usize,
-    _block: Option<(u64, u64)>,
-    _hash: Option<(u64, u64)>,
-    _seek: Option<u64>,
-    _upgrade: Option<(u64, u64)>,
-) {
+use crate::exec::{self, Guarded};
+use crate::merkle::ft;
+use crate::tamper::{Mutation, RawProofSpec};
+use crate::world::{call_core, mk_request, Ev, Req, Res, World};
+use hypercore::Proof;
+use std::panic::{catch_unwind, AssertUnwindSafe};
+
+/// Concrete request derived from a symbolic `Req` and the current models.
+#[derive(Clone, Debug, Default, PartialEq)]
+pub struct Concrete {
+    pub block: Option<u64>,
+    pub hash: Option<u64>,
+    pub seek: Option<u64>,
+    pub upgrade: Option<(u64, u64)>,
+    pub class: String,
+    pub straddle: bool,
 }
-pub fn do_raw_proof(_w: &mut World, _n: usize, _p: &RawProofSpec) {}
+
+/// Normalise a symbolic request into a well-formed honest one (None = nothing to ask).
+/// `nodes_for` is consulted for block+seek to bound the byte offset.
+pub fn normalise(w: &World, n: usize, req: &Req) -> Option<Concrete> {
+    let wlen = w.truth.len();
+    if wlen == 0 {
+        return None;
+    }
+    let rlen = w.nodes[n].model.length;
+    let behind = wlen.saturating_sub(rlen);
+    let mut c = Concrete::default();
+    let mut last_index: Option<u64> = None; // last block index covered by the indexed part
+    let mut first_index: Option<u64> = None;
+    if let Some(b) = req.block {
+        let i = b % wlen;
+        c.block = Some(i);
+        last_index = Some(i);
+        first_index = Some(i);
+    } else if let Some(h) = req.hash {
+        // reduce into an existing node of the writer's tree
+        let mut j = h % (2 * wlen - 1).max(1);
+        while !ft::exists(j, wlen) {
+            match ft::left_child(j) {
+                Some(l) => j = l,
+                None => {
+                    j = 0;
+                    break;
+                }
+            }
+        }
+        // straddling the replica's length?
+        let mut strad = behind > 0 && ft::left_span(j) / 2 < rlen && ft::right_span(j) / 2 >= rlen;
+        if strad && !req.straddle {
+            while behind > 0 && ft::left_span(j) / 2 < rlen && ft::right_span(j) / 2 >= rlen {
+                j = ft::left_child(j).unwrap();
+            }
+            strad = false;
+        }
+        c.straddle = strad;
+        c.hash = Some(j);
+        last_index = Some(ft::right_span(j) / 2);
+        first_index = Some(ft::left_span(j) / 2);
+    }
+    // upgrade
+    let need = last_index.map(|l| l >= rlen).unwrap_or(false);
+    if behind > 0 {
+        let mut len = match req.upgrade {
+            Some(l) => Some(1 + l % behind),
+            None => {
+                if need {
+                    Some(behind)
+                } else {
+                    None
+                }
+            }
+        };
+        if let (Some(l), Some(li)) = (len, last_index) {
+            if need && rlen + l <= li {
+                len = Some(li - rlen + 1);
+            }
+        }
+        if let Some(l) = len {
+            c.upgrade = Some((rlen, l));
+        }
+    }
+    // seek: only in the combinations the API admits
+    if let Some(sel) = req.seek {
+        if c.block.is_none() && c.hash.is_none() {
+            if let Some((s, l)) = c.upgrade {
+                let to = s + l;
+                let max = w.truth.offsets[to as usize];
+                c.seek = Some(sel % (max + 1));
+            }
+        } else if let Some(i) = c.block {
+            let ok = match c.upgrade {
+                None => true,
+                Some((s, _)) => i < s,
+            };
+            if ok && i < rlen {
+                // resolved later (needs the replica's missing-node count): mark with selector
+                c.seek = Some(sel);
+            }
+        }
+    }
+    if c.block.is_none() && c.hash.is_none() && c.upgrade.is_none() {
+        return None;
+    }
+    // class label
+    let pos = |first: u64, last: u64| -> &'static str {
+        if last < rlen {
+            "below"
+        } else if first >= rlen {
+            if first == rlen {
+                "at"
+            } else {
+                "above"
+            }
+        } else {
+            "straddle"
+        }
+    };
+    let mut class = String::new();
+    if let (Some(f), Some(l)) = (first_index, last_index) {
+        class.push_str(if c.block.is_some() { "block-" } else { "hash-" });
+        class.push_str(pos(f, l));
+    }
+    if c.seek.is_some() {
+        class.push_str("+seek");
+    }
+    if let Some((s, l)) = c.upgrade {
+        class.push_str(if s + l == wlen { "+upgrade-full" } else { "+upgrade-partial" });
+    }
+    c.class = class;
+    Some(c)
+}
+
+pub struct SyncOutcome {
+    pub proof: Option<Proof>,
+    pub concrete: Concrete,
+    pub nodes: u64,
+}
+
+/// Steps 1 and 2 of an honest exchange: missing-node query on the replica, proof creation on
+/// the writer. Judges the C03 create clauses. Returns None when aborted or nothing to do.
+pub fn request_and_create(w: &mut World, n: usize, req: &Req) -> Option<SyncOutcome> {
+    if n == 0 || w.nodes[0].core.is_none() {
+        w.stats.skipped += 1;
+        return None;
+    }
+    let Some(mut c) = normalise(w, n, req) else {
+        w.stats.skipped += 1;
+        w.logf(|| format!("sync n{n} skipped (nothing to request)"));
+        return None;
+    };
+    // 1. node count from the replica's own missing-node query
+    let mut nodes = 0u64;
+    if let Some(i) = c.block {
+        let call = w.begin_call(n, "missing_nodes");
+        let g = call_core!(w, n, |core| core.missing_nodes(i).await);
+        let r = Res::from(g);
+        w.logf(|| format!("missing_nodes n{n} block {i} -> {}", r.brief()));
+        match r {
+            Res::Ok(v) => {
+                w.end_call(call, true);
+                nodes = v
+            }
+            other => {
+                w.end_call(call, false);
+                if matches!(other, Res::Panic(_) | Res::Hang(_)) {
+                    w.calls[call].crashed = true;
+                }
+                fail_honest(w, n, "C03.missing_nodes", "missing_nodes", &other);
+                return None;
+            }
+        }
+    } else if let Some(j) = c.hash {
+        let call = w.begin_call(n, "missing_nodes");
+        let g = call_core!(w, n, |core| core.missing_nodes_from_merkle_tree_index(j).await);
+        let r = Res::from(g);
+        w.logf(|| format!("missing_nodes n{n} tree index {j} -> {}", r.brief()));
+        match r {
+            Res::Ok(v) => {
+                w.end_call(call, true);
+                nodes = v
+            }
+            other => {
+                w.end_call(call, false);
+                if matches!(other, Res::Panic(_) | Res::Hang(_)) {
+                    w.calls[call].crashed = true;
+                }
+                fail_honest(w, n, "C03.missing_nodes", "missing_nodes", &other);
+                return None;
+            }
+        }
+    }
+    // resolve block+seek byte offset inside the proven subtree's byte span
+    if let (Some(i), Some(sel)) = (c.block, c.seek) {
+        let mut root = 2 * i;
+        for _ in 0..nodes {
+            root = ft::parent(root);
+        }
+        if ft::exists(root, w.truth.len()) {
+            let (off, size) = w.reftree.byte_span(root, &w.truth.offsets);
+            c.seek = Some(if size == 0 { off } else { off + sel % size });
+        } else {
+            c.seek = None;
+        }
+    }
+    w.stats.class(&c.class);
+    let (rb, rh, rs, ru) = mk_request(
+        c.block.map(|i| (i, nodes)),
+        c.hash.map(|j| (j, nodes)),
+        c.seek,
+        c.upgrade,
+    );
+    // 2. proof creation on the writer
+    let call = w.begin_call(0, "create_proof");
+    let g = call_core!(w, 0, |core| core.create_proof(rb, rh, rs, ru).await);
+    let r = Res::from(g);
+    w.end_call(call, matches!(r, Res::Ok(_)));
+    let cc = c.clone();
+    w.logf(|| {
+        format!(
+            "create_proof for n{n} {:?} nodes {nodes} -> {}",
+            cc,
+            match &r {
+                Res::Ok(Some(p)) => format!("Ok({})", crate::world::proof_brief(p)),
+                Res::Ok(None) => "Ok(None)".into(),
+                other => other.brief(),
+            }
+        )
+    });
+    let _ = w.drain(0); // a Get event for a cleared block is tolerated, not required
+    w.stats.proofs_honest += 1;
+    let cleared = c.block.map(|i| !w.nodes[0].model.has(i)).unwrap_or(false);
+    let clause = if c.straddle { "C03.straddle" } else { "C03.create" };
+    match r {
+        Res::Ok(Some(p)) => {
+            if cleared {
+                w.viol(
+                    "C03.create",
+                    format!("writer served a proof for block {:?} which it has cleared", c.block),
+                );
+                return None;
+            }
+            if w.cfg.judge_tree {
+                crate::c05::judge_proof(w, &p);
+            }
+            Some(SyncOutcome { proof: Some(p), concrete: c, nodes })
+        }
+        Res::Ok(None) => {
+            if cleared {
+                w.stats.proofs_none += 1;
+                Some(SyncOutcome { proof: None, concrete: c, nodes })
+            } else {
+                w.viol(clause, format!("honest request {c:?} (nodes {nodes}) yielded no proof"));
+                None
+            }
+        }
+        other => {
+            let b = other.brief();
+            w.viol(clause, format!("honest request {c:?} (nodes {nodes}) not served: {b}"));
+            if w.nodes[0].dead {
+                w.aborted = Some("writer died in create_proof".into());
+            }
+            None
+        }
+    }
+}
+
+fn fail_honest<T: std::fmt::Debug>(w: &mut World, n: usize, clause: &str, what: &str, r: &Res<T>) {
+    if w.fault_fired(n) && matches!(r, Res::Err(..)) {
+        w.aborted = Some(format!("injected fault surfaced in {what}"));
+        return;
+    }
+    let b = r.brief();
+    w.viol(clause, format!("{what} on an honest exchange failed: {b}"));
+    if w.nodes[n].dead {
+        w.aborted = Some(format!("{what} died"));
+    }
+}
+
+/// expected events for an accepted proof
+pub fn proof_events(p: &Proof) -> Vec<Ev> {
+    let mut v = vec![];
+    if p.upgrade.is_some() {
+        v.push(Ev::Upgrade);
+    }
+    if let Some(b) = &p.block {
+        v.push(Ev::Have(b.index, 1, false));
+    }
+    v
+}
+
+/// Apply an honest proof on replica n and judge acceptance + model update.
+pub fn apply_honest(w: &mut World, n: usize, p: &Proof, c: &Concrete) -> bool {
+    let call = w.begin_call(n, "verify_and_apply_proof");
+    let g = call_core!(w, n, |core| core.verify_and_apply_proof(p).await);
+    let r = Res::from(g);
+    w.logf(|| format!("apply n{n} -> {}", r.brief()));
+    let clause = if c.straddle { "C03.straddle" } else { "C03.accept" };
+    // model after acceptance
+    let mut after = w.nodes[n].model.clone();
+    if p.upgrade.is_some() {
+        after.length = w.truth.len();
+        after.byte_length = w.truth.byte_length();
+    }
+    if let Some(b) = &p.block {
+        after.held.insert(b.index, w.truth.blocks[b.index as usize].clone());
+    }
+    match r {
+        Res::Ok(true) => {
+            w.nodes[n].model = after;
+            w.end_call(call, true);
+            w.stats.proofs_accepted += 1;
+            let ev = proof_events(p);
+            w.expect_events(n, "accepted proof", &ev);
+            true
+        }
+        other => {
+            w.end_call(call, false);
+            w.calls[call].after = after;
+            if matches!(other, Res::Panic(_) | Res::Hang(_)) {
+                w.calls[call].crashed = true;
+            }
+            if w.fault_fired(n) && matches!(other, Res::Err(..)) {
+                w.aborted = Some("injected fault surfaced in verify_and_apply_proof".into());
+                return false;
+            }
+            let b = other.brief();
+            w.viol(clause, format!("honest proof for {c:?} not accepted: {b}"));
+            if w.nodes[n].dead {
+                w.aborted = Some("replica died in verify_and_apply_proof".into());
+            } else {
+                w.expect_events(n, "refused proof", &[]);
+            }
+            false
+        }
+    }
+}
+
+pub fn do_sync(w: &mut World, n: usize, req: &Req) {
+    let Some(out) = request_and_create(w, n, req) else { return };
+    if let Some(p) = out.proof {
+        apply_honest(w, n, &p, &out.concrete);
+    }
+}
+
+pub fn do_tamper(w: &mut World, n: usize, req: &Req, m: &Mutation) {
+    crate::tamper::do_tamper(w, n, req, m);
+}
+
+/// C09: any request tuple to create_proof must return Ok/Err, never panic or hang.
+pub fn do_raw_request(
+    w: &mut World,
+    n: usize,
+    block: Option<(u64, u64)>,
+    hash: Option<(u64, u64)>,
+    seek: Option<u64>,
+    upgrade: Option<(u64, u64)>,
+) {
+    w.stats.raw_calls += 1;
+    let (rb, rh, rs, ru) = mk_request(block, hash, seek, upgrade);
+    let call = w.begin_call(n, "create_proof(raw)");
+    let g = call_core!(w, n, |core| core.create_proof(rb, rh, rs, ru).await);
+    let r = Res::from(g);
+    w.end_call(call, matches!(r, Res::Ok(_)));
+    w.logf(|| {
+        format!(
+            "raw create_proof n{n} block {block:?} hash {hash:?} seek {seek:?} upgrade {upgrade:?} -> {}",
+            match &r {
+                Res::Ok(Some(p)) => format!("Ok({})", crate::world::proof_brief(p)),
+                Res::Ok(None) => "Ok(None)".into(),
+                other => other.brief(),
+            }
+        )
+    });
+    let _ = w.drain(n);
+    match r {
+        Res::Panic(m) => {
+            w.viol("C09.panic", format!("create_proof(block {block:?}, hash {hash:?}, seek {seek:?}, upgrade {upgrade:?}) panicked: {m}"));
+            w.aborted = Some("panic in create_proof".into());
+        }
+        Res::Hang(m) => {
+            w.viol("C09.hang", format!("create_proof(block {block:?}, hash {hash:?}, seek {seek:?}, upgrade {upgrade:?}) hung: {m}"));
+            w.aborted = Some("hang in create_proof".into());
+        }
+        _ => {}
+    }
+}
+
+pub fn do_raw_proof(w: &mut World, n: usize, spec: &RawProofSpec) {
+    w.stats.raw_calls += 1;
+    let p = crate::tamper::build_raw(w, spec);
+    offer_untrusted(w, n, &p, "raw proof", "C09");
+}
+
+/// Offer an untrusted proof: judge C09 (no panic/hang) and C04 (refused => unchanged,
+/// accepted => still truthful). Returns Some(accepted).
+pub fn offer_untrusted(w: &mut World, n: usize, p: &Proof, what: &str, prop: &str) -> Option<bool> {
+    let before_files = w.files(n);
+    let before_model = w.nodes[n].model.clone();
+    let call = w.begin_call(n, "verify_and_apply_proof(untrusted)");
+    let g = call_core!(w, n, |core| core.verify_and_apply_proof(p).await);
+    let r = Res::from(g);
+    w.logf(|| format!("offer {what} to n{n}: {} -> {}", crate::world::proof_brief(p), r.brief()));
+    match r {
+        Res::Panic(m) => {
+            w.end_call(call, false);
+            w.viol("C09.panic", format!("verify_and_apply_proof({what}) panicked: {m}"));
+            w.aborted = Some("panic in verify_and_apply_proof".into());
+            None
+        }
+        Res::Hang(m) => {
+            w.end_call(call, false);
+            w.viol("C09.hang", format!("verify_and_apply_proof({what}) hung: {m}"));
+            w.aborted = Some("hang in verify_and_apply_proof".into());
+            None
+        }
+        Res::Ok(true) => {
+            // accepted: must still be the truth. The only state the writer signed that the
+            // replica may move to is the writer's current one.
+            let mut after = before_model.clone();
+            if p.upgrade.is_some() {
+                after.length = w.truth.len();
+                after.byte_length = w.truth.byte_length();
+            }
+            if let Some(b) = &p.block {
+                if (b.index as usize) < w.truth.blocks.len() {
+                    after.held.insert(b.index, w.truth.blocks[b.index as usize].clone());
+                }
+            }
+            w.nodes[n].model = after;
+            w.end_call(call, true);
+            let _ = w.drain(n);
+            let _ = prop;
+            Some(true)
+        }
+        Res::Ok(false) | Res::Err(..) => {
+            w.end_call(call, false);
+            // refused: every observation unchanged (storage bytes too, which covers reopen)
+            let after_files = w.files(n);
+            if after_files != before_files {
+                let which: Vec<&str> = (0..4)
+                    .filter(|i| after_files[*i] != before_files[*i])
+                    .map(|i| crate::disk::STORE_NAMES[i])
+                    .collect();
+                w.viol(
+                    "C04.refused-changed",
+                    format!("refused {what} changed storage files {which:?}"),
+                );
+            }
+            let ev = w.drain(n);
+            if ev.iter().any(|e| !e.is_empty()) {
+                w.viol("C13.events", format!("refused {what} emitted events {ev:?}"));
+            }
+            Some(false)
+        }
+    }
+}
+
+#[allow(dead_code)]
+fn unused() {
+    let _ = catch_unwind(AssertUnwindSafe(|| ()));
+    let _: Option<Guarded<()>> = None;
+    let _ = exec::POLL_BUDGET;
+}
